@@ -47,7 +47,8 @@ class ProgGen:
                 return "(%s %s %s) %s (%s %s %s)" % (
                     self.ext(), self.rng.choice(["and", "or"]), self.ext(), self.rng.choice(["+", "<", "=="]),
                     self.ext(), self.rng.choice(["and", "or"]), self.ext())
-            return "%s %s %s" % (self.ext(), self.rng.choice(["and", "or"]), self.ext())
+            op = self.rng.choice(["and", "or"])
+            return (" %s " % op).join(self.ext() for _ in range(self.rng.choice([2, 2, 3, 4, 5])))
         return "%s < %s" % (self.ext(), self.rng.choice(self.vars))
 
     def test(self, depth=1, loop=False):
@@ -78,7 +79,7 @@ class ProgGen:
             return self.rng.choice(["%s.real" % self.ext(), "tup(%s)[0]" % self.ext()])
         if "boolop" in self.f and r < 0.92:
             op = self.rng.choice(["and", "or"])
-            n = self.rng.choice([2, 2, 3])
+            n = self.rng.choice([2, 2, 3, 3, 4, 5])
             ops = []
             for _ in range(n):
                 if "nested-boolop" in self.f and depth > 0 and self.rng.random() < 0.3:
